@@ -39,6 +39,14 @@ def check_inst(mod, run, d, tag):
         try: paths = eng.run(fname)
         except Unsupported as e: raise AnalysisBroken("E2: %s is outside the supported language: %s" % (fname, e))
         if not paths: raise AnalysisBroken("%s: no path" % fname)
+        # P4: the bit position offset * BITS is formed in 64-bit arithmetic, or cannot exceed the narrower type for any index the length type allows
+        for (mi, mbits, lin, factor) in getattr(eng, "narrow_products", []):
+            symbolic_offset = any("offset" in repr(a) for a in lin.atoms())
+            if not symbolic_offset or factor is None: continue
+            lb = d.get("len_bits", 32); top = ((1 << lb) - 1) * factor
+            run.check(top < (1 << mbits), "P4-bit-position-does-not-wrap", {"fn": fname, "product_bits": mbits, "max_index_bits": lb, "factor": factor},
+                      Finding("P4-bit-position-wraps", fname, "offset*%d" % factor, "mul", "%s (%s) multiplies the element index by %d in %d-bit arithmetic: for indices up to 2^%d - 1 the bit position wraps and another element's slot is addressed" % (
+                          fname, tag, factor, mbits, lb)))
         for p in paths:
             n += 1
             res = [c for c in p.cases if c[0] == "offset"]
@@ -115,12 +123,14 @@ def load(which, cfg="ndebug"):
 def controls(run):
     mod = Module(build_module("ctl-packed", [os.path.join(VERIF, "controls", "packed_controls.c")], "ndebug"))
     probe = Run("C09-control", "quick")
-    for fn, d in (("ctlBad12", dict(bits=12, slot=32, compact=False, value_bits=16, fn="ctlBad12")), ("ctlLeak12", dict(bits=12, slot=32, compact=False, value_bits=16, fn="ctlLeak12"))):
+    for fn, d in (("ctlBad12", dict(bits=12, slot=32, compact=False, value_bits=16, fn="ctlBad12")), ("ctlLeak12", dict(bits=12, slot=32, compact=False, value_bits=16, fn="ctlLeak12")),
+                   ("ctlWrap12", dict(bits=12, slot=32, compact=False, value_bits=16, fn="ctlWrap12", len_bits=32))):
         try: check_inst(mod, probe, d, "control")
         except AnalysisBroken as e: raise
     got = {f.function for f in probe.findings}
     run.control("wrong shift in split path is flagged", "ctlBad12Set" in got)
     run.control("unconditional access of the next slot is flagged", "ctlLeak12Get" in got or "ctlLeak12Set" in got)
+    run.control("bit position formed in 32-bit arithmetic is flagged", any(f.rule == "P4-bit-position-wraps" and f.function.startswith("ctlWrap12") for f in probe.findings))
 
 
 def run(tier):
